@@ -15,6 +15,7 @@ import (
 	"strconv"
 	"strings"
 	"sync/atomic"
+	"syscall"
 	"testing"
 	"time"
 )
@@ -66,9 +67,10 @@ type Worker struct {
 	viol    *Violation
 	runHash uint64
 
-	evlog   *os.File // determinism self-test: one line per execution
-	steplog *os.File // debugging aid: every step line
-	nsteps0 int64
+	evlog                 *os.File // determinism self-test: one line per execution
+	steplog               *os.File // debugging aid: every step line
+	steplogN, steplogRing int      // bytes written since the last truncation; VERIF_STEPLOG_RING > 0 keeps only that many
+	nsteps0               int64
 
 	// termination watchdog (real clock, used for nothing but detecting a call that never returns)
 	watchOp  atomic.Pointer[string]
@@ -94,6 +96,7 @@ func NewWorker(t *testing.T, property, test string) *Worker {
 	go w.watchdog()
 	if p := os.Getenv("VERIF_STEPLOG"); p != "" {
 		w.steplog, _ = os.Create(p)
+		w.steplogRing, _ = strconv.Atoi(os.Getenv("VERIF_STEPLOG_RING"))
 	}
 	if p := os.Getenv("VERIF_EVENTLOG"); p != "" {
 		w.evlog, _ = os.Create(p)
@@ -140,6 +143,15 @@ func (w *Worker) WatchBegin(op *string) {
 // WatchEnd marks the return of the call started by WatchBegin.
 func (w *Worker) WatchEnd() { w.watchOp.Store(nil) }
 
+// processCPU is the processor time (user + system) this process has used so far.
+func processCPU() time.Duration {
+	var ru syscall.Rusage
+	if syscall.Getrusage(syscall.RUSAGE_SELF, &ru) != nil {
+		return 0
+	}
+	return time.Duration(ru.Utime.Nano() + ru.Stime.Nano())
+}
+
 func (w *Worker) watchdog() {
 	limit := 20 * time.Second
 	if v := ParamInt("call_timeout_s", 0); v > 0 {
@@ -147,6 +159,7 @@ func (w *Worker) watchdog() {
 	}
 	var lastSeq uint64
 	var since time.Time
+	var cpu0 time.Duration
 	for {
 		time.Sleep(250 * time.Millisecond)
 		op := w.watchOp.Load()
@@ -156,6 +169,12 @@ func (w *Worker) watchdog() {
 			continue
 		}
 		if time.Since(since) < limit {
+			cpu0 = processCPU()
+			continue
+		}
+		// a call that spins burns processor time; a process that was merely not run (machine overloaded, memory
+		// reclaim, a stopped VM) does not. Without that evidence the verdict waits fifteen times as long.
+		if processCPU()-cpu0 < limit/2 && time.Since(since) < 15*limit {
 			continue
 		}
 		// the main goroutine is stuck inside the code under test: report and leave
@@ -188,7 +207,13 @@ func (w *Worker) Step(format string, a ...any) {
 	w.StepsTot++
 	line := fmt.Sprintf(format, a...)
 	if w.steplog != nil {
-		fmt.Fprintf(w.steplog, "%d| %s\n", w.Runs, line)
+		n, _ := fmt.Fprintf(w.steplog, "%d| %s\n", w.Runs, line)
+		if w.steplogN += n; w.steplogRing > 0 && w.steplogN > w.steplogRing {
+			// ring mode: only what precedes an abrupt end matters
+			_ = w.steplog.Truncate(0)
+			_, _ = w.steplog.Seek(0, 0)
+			w.steplogN = 0
+		}
 	}
 	w.MixS(line)
 	w.steps = append(w.steps, line)
